@@ -112,7 +112,7 @@ CHECKS["C07"] = (
     "chunk-relative codon; computed identifiers (real MD5) of feature/transcript/CDS/gene/collections equal across no parent / chromosome / chunk. "
     "F8b and F18 excluded by their exact regions."
     " Also: every position conversion of a coding transcript on a cutting chunk equals the parent-less twin's; isoform CDSs with equal spans evaluated alternately on one chunk; the primary transcript/feature is the twin's. Block structure of the chunk view = chromosome blocks clipped to the window (touching blocks kept apart); codon windows by chromosome start/end on chunk-built CDSs list exactly the model codons inside window and chunk (defect found and repaired, a55c0c6); stop/start predicates and scan_codons of the chunk view."
-    " Round 7: UTRs of chunk-built transcripts = chromosome UTR bases inside the window, on plus- and minus-strand chunks (defect found and repaired, 3b5d60d).",
+    " Round 7: UTRs of chunk-built transcripts = chromosome UTR bases inside the window, on plus- and minus-strand chunks (defect found and repaired, 3b5d60d); every chunk_relative_* accessor, conversion along the visible part and from_chunk_relative_location on cutting chunks of both strands (b0cbd12, 68dca75); sequence answers on minus-strand chunks.",
     _NOTE, "DESIGN.md §3 C07")
 CHECKS["C08"] = (
     _CH + "; cvc5/z3 string queries over digest pre-image templates extracted from the real constructors",
@@ -180,7 +180,8 @@ CHECKS["C11"] = (
     "isoform kinds, identifier and biotype patterns, with and without FASTA: the parsed gene models equal the source (exons, CDS blocks, frames, "
     "strand, ids, symbols, locus tag, biotypes, protein id, product, qualifiers, sequences), re-export reproduces columns 1-8 and is a fixed point "
     "from the second generation. F15, F16, F17 recorded."
-    " Isoforms with and without transcript id in one gene are among the identifier patterns.",
+    " Isoforms with and without transcript id in one gene are among the identifier patterns."
+    " Round 7: rows of a gene / feature collection on a chunk placed on the MINUS strand (chromosome rows = twin's, chunk-relative rows = mirror image with the chunk strand on every row; defect found and repaired, 2b8acd1).",
     _NOTE + " The parse legs are realised (gffutils/sqlite3 run natively): exhaustive over the stated finite spaces only.", "DESIGN.md §3 C11, §8.1")
 CHECKS["C17"] = (
     _CH,
